@@ -448,6 +448,36 @@ func ruleFuncReg(p *Prog, r *Result) {
 			}
 			var isNumArgs func(v ssa.Value) bool
 			isNumArgs = func(v ssa.Value) bool {
+				// a parameter of a package helper (checkCallArity(call, name, numArgs, varArgs)): what its static
+				// callers pass
+				if pa, ok := v.(*ssa.Parameter); ok && pa.Parent() != nil {
+					g := pa.Parent()
+					idx := -1
+					for k, q := range g.Params {
+						if q == pa {
+							idx = k
+						}
+					}
+					any := false
+					for _, caller := range p.Funcs {
+						ok2 := true
+						allInstrs(caller, func(x ssa.Instruction) {
+							c, isC := x.(*ssa.Call)
+							if !isC || c.Call.StaticCallee() != g || idx < 0 || idx >= len(c.Call.Args) {
+								return
+							}
+							if a := c.Call.Args[idx]; a != v && isNumArgs(a) {
+								any = true
+							} else {
+								ok2 = false
+							}
+						})
+						if !ok2 {
+							return false
+						}
+					}
+					return any
+				}
 				// a result of a package helper that hands out the registered signature
 				if ex, ok := v.(*ssa.Extract); ok {
 					if c, ok := ex.Tuple.(*ssa.Call); ok {
